@@ -215,7 +215,10 @@ AddGradient ==
          lin   == MaybeN(166, 55)
          \* a coordinate is <<n, d, pct>>: the number n/d, written as a percentage when pct = 1
          BB == { <<0, 1, 1>>, <<25, 1, 1>>, <<50, 1, 1>>, <<100, 1, 1>>, <<75, 1, 1>>, <<1, 2, 0>>, <<1, 1, 0>>, <<0, 1, 0>>, <<1, 4, 0>> }
-         C(i, v) == IF bbox THEN PickN(i, BB) ELSE <<v, 1, 0>>
+         \* user-space coordinates are plain numbers or percentages of the viewport (x: width, y: height)
+         C(i, v) == IF bbox THEN PickN(i, BB)
+                    ELSE IF MaybeN(i + 40, 30) THEN PickN(i + 41, { <<25, 1, 1>>, <<50, 1, 1>>, <<75, 1, 1>> })
+                    ELSE <<v, 1, 0>>
          coords == IF lin
                    THEN Opt(168, "x1", {C(561, 2)}, 70) \o Opt(169, "y1", {C(562, 3)}, 60) \o Opt(170, "x2", {C(563, 12)}, 80) \o Opt(171, "y2", {C(564, 9)}, 60)
                    ELSE Opt(172, "cx", {C(565, 8)}, 75) \o Opt(173, "cy", {C(566, 7)}, 75) \o Opt(174, "r", {IF bbox THEN PickN(567, BB \ {<<0, 1, 1>>, <<0, 1, 0>>}) ELSE <<6, 1, 0>>}, 80)
@@ -261,7 +264,9 @@ Settle(nd) == IF nd.tag = "use" /\ HasAttr(nd.at, "clip-path") THEN [nd EXCEPT !
 (* vb is the region the content lives in (and is sampled on); view is the viewBox attribute that  *)
 (* is written out: picosvg's tolerances are relative to it, so a drawing in the corner of a large    *)
 (* viewBox exposes tolerance misuse                                                                  *)
-View(n_) == IF Focus = "struct" /\ MaybeN(450, 25) THEN <<0, 0, 160, 160>> ELSE <<0, 0, 16, 16>>
+View(n_) == IF Focus = "struct" /\ MaybeN(450, 25) THEN <<0, 0, 160, 160>>
+            ELSE IF Focus = "grad" /\ MaybeN(451, 30) THEN <<0, 0, 16, 32>>      \* non-square: x and y percentages differ
+            ELSE <<0, 0, 16, 16>>
 Doc == [vb |-> <<0, 0, 16, 16>>, view |-> View(Len(nodes)), root |-> RootAttrs(Len(nodes)),
         nodes |-> [k \in 1..Len(nodes) |-> Settle(nodes[k])]]
 
